@@ -50,7 +50,7 @@ FILE *fopen(const char *path, const char *mode)
 }
 
 #ifdef EXP_NOSNP
-static inline int exp_snp(char *s, size_t n) { int r = nondet_int(); __CPROVER_assume(r >= 0); g_snp_ret = r; if ((size_t) r >= n) g_lowfail++; if (n > 0) s[0] = 0; return r; }
+static inline int exp_snp(char *s, size_t n) { int r = nondet_int(); __CPROVER_assume(r >= 0); g_snp_ret = r; g_snp_n++; if (n > 0 && (size_t) r >= n) g_lowfail++; if (n > 0 && s != NULL) { s[0] = nondet_char(); s[n - 1] = nondet_char(); } return r; }
 #undef snprintf
 #define snprintf(s, n, ...) exp_snp((s), (n))
 #endif
@@ -78,24 +78,26 @@ static inline int exp_snp(char *s, size_t n) { int r = nondet_int(); __CPROVER_a
 WITNESS(prf_add);
 long w_index, w_nrows; int w_set;
 int g_pre_set;       /* rows[index].set before the call (0 when out of range) */
-int g_k_set;         /* rows[g_k].set before the call */
-long g_b; char g_k_byte;   /* one arbitrary byte of the label of row g_k, before the call */
 int c_prf_add(struct prf *prf, long index, const char *label)
-__CPROVER_requires(PRF_OBJ(prf) && OBS_K(prf) && DIAG_PRE && LOW_PRE)
+__CPROVER_requires(PRF_OBJ(prf) && DIAG_PRE && LOW_PRE)
 __CPROVER_requires((INR(prf, index) && g_pre_set == prf->rows[index].set) || (!INR(prf, index) && g_pre_set == 0))
-__CPROVER_requires(prf->nrows == 0 || (g_k_set == prf->rows[g_k].set && g_b >= 0 && g_b < MAX_PRF_LABEL && g_k_byte == prf->rows[g_k].label[g_b]))
 __CPROVER_requires(WBIND(prf_add, w_index == index && w_nrows == prf->nrows && w_set == g_pre_set))
 __CPROVER_assigns(DIAG_FRAME, g_lowfail, g_snp_ret, g_snp_n)
-__CPROVER_assigns(INR(prf, index): prf->rows[index])
+/* frame = "no overwrite": the only row that may change is the target, and only while it has no
+ * name yet; rows outside [0,nrows), other rows and already named rows are not assignable at all
+ * (observing one byte of another row instead is intractable: stride 516 is not a power of two) */
+#ifdef EXP_WHOLE
+__CPROVER_assigns(INR(prf, index) && prf->rows[index].set == 0: prf->rows[index])
+#else
+__CPROVER_assigns(INR(prf, index) && prf->rows[index].set == 0: prf->rows[index].set,
+	__CPROVER_object_upto(prf->rows[index].label, MAX_PRF_LABEL))
+#endif
 /* accepted exactly when the row exists, is not named yet and the label fits */
 __CPROVER_ensures((RV == 0) == (INR(prf, index) && g_pre_set == 0 && g_lowfail == OLD(g_lowfail)))
 __CPROVER_ensures(RV == 0 || (RV == -1 && g_err > OLD(g_err)))
 __CPROVER_ensures(RV != 0 || (prf->rows[index].set == 1 && g_snp_ret < MAX_PRF_LABEL))
-/* every other row keeps its flag; a refused call names nothing */
-__CPROVER_ensures(prf->nrows == 0 || (RV == 0 && g_k == index) || prf->rows[g_k].set == g_k_set)
-/* no overwrite: the label of a row that was already named, or that is not the target, is untouched */
-__CPROVER_ensures(prf->nrows == 0 || (g_k == index && g_k_set == 0) || prf->rows[g_k].label[g_b] == g_k_byte)
-/* nrows and the table itself never move (they are outside the frame) */
+/* a refused call does not mark the row as named */
+__CPROVER_ensures(RV == 0 || !INR(prf, index) || prf->rows[index].set == g_pre_set)
 ;
 void h_prf_add(void)
 {
